@@ -8,7 +8,7 @@ from .c01 import classify_block_writes
 
 PID = "C15"
 META = {
-    "explanation": "Static analysis of the block cut rule on the MIR of the current tree: in Writer::insert every path from the data-block insert to a return passes the test `block_writer.current_size_estimate() >= self.block_size` (non-strict; same writer; field), whose true edge reaches the flush of that writer; the level loop applies the same test to each visited index writer and iterates last-to-first over index_block_writers[1..] (the constant 1: the root and the level directly below it are never cut during insert); block_size is clamped with max(MIN_BLOCK_SIZE = 1024, arg), has no other writer, and the sorter passes its setting through that setter; current_size_estimate = buffer.len() + index_offsets.len() * 8 + 4, exactly the widths finish() appends (u64 per offset, one u32 count); a flushed writer is emptied by the finished block's Drop before the next insert can see it. Physical sizes of compressed blocks are not decided.",
+    "explanation": "Static analysis of the block cut rule on the MIR of the current tree: in Writer::insert every path from the data-block insert to a return passes the test `block_writer.current_size_estimate() >= self.block_size` (non-strict; same writer; field), whose true edge reaches the flush of that writer; the level loop applies the same test to each visited index writer and iterates last-to-first over index_block_writers[1..] (the constant 1: the root and the level directly below it are never cut during insert); block_size is clamped with max(MIN_BLOCK_SIZE = 1024, arg), has no other writer, and the sorter passes its setting through that setter; current_size_estimate = buffer.len() + index_offsets.len() * 8 + 4, exactly the widths finish() appends (u64 per offset, one u32 count); a flushed writer is emptied by the finished block's Drop before the next insert can see it. Physical sizes of compressed blocks are not decided. Entries are appended to a Writer's data block from Writer::insert only.",
     "assumptions": ["compress_and_write_block finishes (and thereby resets) the writer it is given"],
 }
 
